@@ -181,10 +181,11 @@ func (x *X) viol(props []string, oracle, sig, detail string) {
 		props = append(append([]string{}, props...), "C14")
 		oracle = "ro.served-wrong/" + oracle
 	}
-	if x.p.Prop == "C16" && !strings.Contains(sig, "[") && (strings.HasPrefix(oracle, "readback.") || strings.HasPrefix(oracle, "gc.removed-") || strings.HasPrefix(oracle, "taglist.") || oracle == "tag.resolve" || strings.HasPrefix(oracle, "restart.")) {
+	if x.p.Prop == "C16" && x.p.Knobs.FaultRate == 0 && !strings.Contains(sig, "[") && (strings.HasPrefix(oracle, "readback.") || strings.HasPrefix(oracle, "gc.removed-") || strings.HasPrefix(oracle, "taglist.") || oracle == "tag.resolve" || strings.HasPrefix(oracle, "restart.")) {
 		// the isolation plans change one repository at a time: content of a repository that no request explains away was
 		// damaged by a request (or a collection) that was about another one (not what the model attributes to a known
-		// family of its own repository, "[…]" in the signature: children of a deleted index, referrers of a deleted subject)
+		// family of its own repository, "[…]" in the signature: children of a deleted index, referrers of a deleted subject;
+		// and not with injected disk faults, where a failed operation explains lost content and only the paths are judged)
 		props = append(append([]string{}, props...), "C16")
 		oracle = "iso.content-damaged/" + oracle
 	}
